@@ -257,7 +257,8 @@ def r_listen_loop(ctx: Ctx, rule: str):
             src = a.func.value
         ok = False
         if isinstance(src, ast.Name):
-            vals = [h[1] for h in ctx.an.scope(f).defs.get(src.id, []) if h[0] == "assign"]
+            vals = [h[1] for h in ctx.an.scope(w.func).defs.get(src.id, []) if h[0] == "assign"] + \
+                   [h[2] for h in ctx.an.scope(w.func).defs.get(src.id, []) if h[0] == "ann"]
 
             def from_buffer(v: ast.AST) -> bool:
                 # directly, or through a helper (spliced into listen) that returns the buffer's content
@@ -456,13 +457,13 @@ def r_buffer(ctx: Ctx, rule: str):
         rep.ob(rule, "each session gets a fresh, empty StringIO", ok, func=fld[2], construct=v)
     w = [e for e in ctx.effects(fields=["_response_buffer"], kinds=["assign"]) if e.path.endswith("._response_buffer")]
     for e in w:
-        rep.ob(rule, "the buffer object is never replaced after construction (the parser keeps writing to it)", ctx.fname(e.node.func) == "__init__", node=e.node)
+        rep.ob(rule, "the buffer object is never replaced after construction (the parser keeps writing to it)", ctx.fname(e.node.root or e.node.func) == "__init__", node=e.node)
     # a parser's stream is fixed at construction (its sub-parsers captured the same object)
     ws = [e for e in ctx.eff.all() if e.kind == "assign" and e.path == "self._stream" and ctx.prog.enclosing_class(e.node.func) is cp]
     rep.floor(rule, "assignments of the parser's stream", len(ws), 1)
     for e in ws:
         rep.ob(rule, "a parser's stream is set once, by its constructor (sub-parsers hold the same object; re-pointing only the top parser splits the output)",
-               ctx.fname(e.node.func) == "__init__", node=e.node)
+               ctx.fname(e.node.root or e.node.func) == "__init__", node=e.node)
     # every session builds its own parser
     ps = [e for e in ctx.eff.all() if e.kind == "assign" and e.path == "self._parser" and ctx.prog.enclosing_class(e.node.func) is sess]
     rep.floor(rule, "assignments of the session's parser", len(ps), 2)
